@@ -180,7 +180,7 @@ func (gr GithubReporter) Create(ctx context.Context, dst any, p PendingComment) 
 		slog.Debug("Skipping report for path with no changes",
 			slog.String("path", p.path),
 		)
-		return nil
+		return errCommentSkipped
 	}
 
 	diffs := parseDiffLines(file.GetPatch())
@@ -188,7 +188,7 @@ func (gr GithubReporter) Create(ctx context.Context, dst any, p PendingComment) 
 		slog.Debug("Skipping report for path with no diff",
 			slog.String("path", p.path),
 		)
-		return nil
+		return errCommentSkipped
 	}
 
 	side, line := gr.fixCommentLine(dst, p)
